@@ -109,6 +109,58 @@ def _run(cmd, text, timeout):
     return "unknown", dt, out[:500]
 
 
+def _race(configs, text, timeout):
+    """Run several solver configurations on the same query at once; the first sat/unsat answer wins, the rest are
+    killed.  -> (name, result, seconds, outputs)"""
+    with tempfile.NamedTemporaryFile("w", suffix=".smt2", delete=False, dir=os.environ.get("VF_TMP", None)) as f:
+        f.write(text)
+        path = f.name
+    t0 = time.time()
+    procs = [(name, subprocess.Popen(cmd + [path], stdout=subprocess.PIPE, stderr=subprocess.STDOUT, text=True)) for name, cmd in configs]
+    winner, outs = None, []
+    try:
+        pending = dict(procs)
+        while pending and time.time() - t0 < timeout + 5 and winner is None:
+            for name, p in list(pending.items()):
+                if p.poll() is not None:
+                    out = (p.stdout.read() or "").strip()
+                    first = out.splitlines()[0].strip() if out else ""
+                    outs.append(f"[{name}] {out[:120]}")
+                    del pending[name]
+                    if first in ("sat", "unsat"):
+                        winner = (name, first)
+                        break
+            time.sleep(0.05)
+    finally:
+        for name, p in procs:
+            if p.poll() is None:
+                p.kill()
+            try:
+                p.wait(timeout=5)
+            except Exception:  # noqa
+                pass
+        try:
+            os.unlink(path)
+        except OSError:
+            pass
+    dt = time.time() - t0
+    if winner:
+        return winner[0], winner[1], dt, outs
+    return None, "unknown", dt, outs
+
+
+ALT_CONFIGS = [
+    ("z3-5.1[seed=7]", ["z3-new", "-T:20", "smt.random_seed=7"]),
+    ("z3-5.1[seed=2]", ["z3-new", "-T:20", "smt.random_seed=2"]),
+    ("z3-5.1[nra=false]", ["z3-new", "-T:20", "smt.arith.nl.nra=false"]),
+    ("z3-5.1[seed=5,grobner=false]", ["z3-new", "-T:20", "smt.random_seed=5", "smt.arith.nl.grobner=false"]),
+    ("z3-4.8.12", ["/usr/bin/z3", "-T:20"]),
+    ("z3-4.8.12[seed=3]", ["/usr/bin/z3", "-T:20", "smt.random_seed=3"]),
+    ("z3-5.1[seed=11]", ["z3-new", "-T:20", "smt.random_seed=11"]),
+    ("z3-5.1[seed=13]", ["z3-new", "-T:20", "smt.random_seed=13"]),
+]
+
+
 def solve_one(ob, scale=1):
     text = ob.text
     ob.smt_size = len(text)
@@ -121,27 +173,35 @@ def solve_one(ob, scale=1):
     # a proof from a SUBSET of the hypotheses is a proof: first try without the witness-function axioms
     # (they are rarely needed and can make instantiation explode)
     for label, txt in (("light", getattr(ob, "text_light", None)), ("linear", getattr(ob, "text_linear", None))):
-        if txt:
+        if txt and scale == 1:
             res, dt, out = _run(["z3-new", f"-T:{6 * scale}"], txt, 6 * scale)
             if res == "unsat":
                 ob.status, ob.backend, ob.time, ob.output = "proved", "z3-5.1", dt, f"[{label} hypothesis subset] unsat"
                 return ob
     t1, t2 = T1 * scale, T2 * scale
-    backends = [
-        ("z3-5.1", ["z3-new", f"-T:{t1}"], t1),
-        ("z3-4.8.12", ["/usr/bin/z3", f"-T:{t2}"], t2),
-    ]
+    if scale == 1:
+        # first round: the default configuration only; whatever it leaves open goes to the second round
+        backends = [("z3-5.1", ["z3-new", f"-T:{t1}"], t1)]
+    else:
+        backends = [("z3-4.8.12", ["/usr/bin/z3", f"-T:{t2}"], t2), ("z3-5.1", ["z3-new", f"-T:{t1}"], t1)]
     if scale > 1:
         # second round (queries left open by the default configurations): nonlinear / quantified queries are sensitive
-        # to the search order, so a few cheap alternative configurations go first; any `unsat` is a proof
-        backends = [
-            ("z3-5.1[nra=false]", ["z3-new", "-T:10", "smt.arith.nl.nra=false"], 10),
-            ("z3-5.1[seed=2]", ["z3-new", "-T:10", "smt.random_seed=2"], 10),
-            ("z3-5.1[seed=5,grobner=false]", ["z3-new", "-T:10", "smt.random_seed=5", "smt.arith.nl.grobner=false"], 10),
-            ("z3-4.8.12[seed=3]", ["/usr/bin/z3", "-T:10", "smt.random_seed=3"], 10),
-        ] + backends
-    if not _Z3ONLY.search(text):
-        backends.append(("cvc5-1.0.3", ["/usr/bin/cvc5", f"--tlimit={t2 * 1000}"], t2))
+        # to the search order, so alternative configurations race on the query first; any answer is an answer
+        name, res, dt, outs0 = _race(ALT_CONFIGS, text, 20)
+        if res == "unsat":
+            ob.status, ob.backend, ob.time, ob.output = "proved", name, dt, " | ".join(outs0)
+            return ob
+        if res == "sat":
+            ob.status, ob.backend, ob.time, ob.output = "refuted", name, dt, " | ".join(outs0)
+            return ob
+        light = getattr(ob, "text_light", None)
+        if light:
+            name, res, dt2, outs1 = _race(ALT_CONFIGS, light, 20)
+            if res == "unsat":  # a proof from a subset of the hypotheses is a proof (sat/unknown there mean nothing)
+                ob.status, ob.backend, ob.time, ob.output = "proved", name, dt + dt2, "[light hypothesis subset] " + " | ".join(outs1)
+                return ob
+    if scale > 1 and not _Z3ONLY.search(text):
+        backends.insert(0, ("cvc5-1.0.3", ["/usr/bin/cvc5", f"--tlimit={T2 * 1000}"], T2))
     total = 0.0
     outs = []
     for name, cmd, to in backends:
@@ -154,7 +214,7 @@ def solve_one(ob, scale=1):
         if res == "sat":
             ob.status, ob.backend = "refuted", name
             break
-        if res == "error" and name == "z3-5.1":
+        if res == "error" and name == "z3-5.1" and scale == 1:
             ob.status, ob.backend = "error", name  # malformed query: a checker error, never a verdict
             break
     else:
@@ -188,7 +248,7 @@ def solve_all(obs, progress=None):
     # four at a time, so that a verdict does not flip with the load (an answer after a retry is the same answer)
     again = [ob for ob in todo if ob.status == "unknown" and ob.kind != "canary"]
     if again:
-        with ThreadPoolExecutor(max_workers=4) as ex:
+        with ThreadPoolExecutor(max_workers=2) as ex:
             for ob in ex.map(lambda o: solve_one(o, 4), again):
                 if ob.status != "unknown":
                     ob.output = "[retried with 4x budget] " + ob.output
